@@ -13,6 +13,7 @@ import (
 	"sort"
 	"strings"
 	"time"
+	"verif/harness/internal/sqlprog"
 
 	"github.com/benoitkugler/gomacro/analysis"
 	"golang.org/x/tools/go/packages"
@@ -36,8 +37,8 @@ type FileHash struct {
 }
 
 type RunObs struct {
-	Class string     `json:"class"`
-	Files []FileHash `json:"files"`
+	Class string            `json:"class"`
+	Files []FileHash        `json:"files"`
 	Texts map[string]string `json:"texts,omitempty"` // kept by the driver for replay files only
 }
 
@@ -208,6 +209,12 @@ func Run(c *core.Ctx, replay string) (*core.Result, error) {
 				{Name: "Tags", Type: absprog.Ref("", "IntList")}, {Name: "K", Type: absprog.Ref("", "Kind")}}})
 			items = append(items, Item{ID: k + 1, Files: absprog.Render(p, synth.ModRoot), Source: fmt.Sprintf("p%d/defs.go", k+1), Rounds: rounds})
 		}
+	}
+	if replay == "" {
+		// a model file rich in comment directives: what the SQL-side generators collect per table (UNIQUE sets,
+		// CHECKs, select keys, custom queries, keys) has at least three entries each
+		m := sqlprog.DirectiveRich(len(items) + 1)
+		items = append(items, Item{ID: m.ID, Files: sqlprog.Render(m), Source: sqlprog.Dir(m.ID) + "/models.go", Rounds: rounds})
 	}
 	// P processes, each loading and running R rounds
 	merged := map[int]map[string][]RunObs{}
